@@ -30,7 +30,7 @@ import (
 var driverText string
 
 // factoryVersion is part of every cache key: bump it when the files the factory itself writes change.
-const factoryVersion = "5"
+const factoryVersion = "6"
 
 // Spec is one probe server: a schema and a gqlgen.yml body.
 type Spec struct {
